@@ -856,6 +856,9 @@ type op =
 | ONext of nat
 | ONextBack of nat
 | ONth of nat * z
+| ONthBack of nat * z
+| OCount of nat
+| OLast of nat
 | OHint of nat
 | OAsSlice of nat
 | OCloneIter of nat * nat
@@ -934,6 +937,14 @@ val yield : tcfg -> elem option -> retv m
 val iter_front : tcfg -> nat -> elem option m
 
 val iter_nth : tcfg -> nat -> nat -> elem option m
+
+val iter_back : tcfg -> nat -> elem option m
+
+val iter_nth_back : tcfg -> nat -> nat -> elem option m
+
+val iter_count : tcfg -> nat -> nat -> z -> z m
+
+val iter_last : tcfg -> nat -> nat -> elem option -> elem option m
 
 val step : tcfg -> (z -> z option) -> op -> (outtag * retv) m
 
